@@ -278,13 +278,16 @@ func updateIncremental(kc *base.KnowledgeContext, rb *builder.RuleBuilder) {
 		newSortRules[sk] = sv
 	}
 
+	//the index of the copy: the published index map is only read here, a rebuilt one replaces it in the copy
+	newSortRulesIndexMap := rb.Kc.SortRulesIndexMap
+
 	//kc store the new rules
 	for k, v := range kc.RuleEntities {
 
 		if vm, ok := newRuleEntities[k]; ok {
 			//repalce update
 			//search
-			index := rb.Kc.SortRulesIndexMap[v.RuleName]
+			index := newSortRulesIndexMap[v.RuleName]
 			if v.Salience == vm.Salience {
 				//replace
 				newSortRules[index] = v
@@ -306,7 +309,7 @@ func updateIncremental(kc *base.KnowledgeContext, rb *builder.RuleBuilder) {
 				for k, v := range newSortRules {
 					indexMap[v.RuleName] = k
 				}
-				rb.Kc.SortRulesIndexMap = indexMap
+				newSortRulesIndexMap = indexMap
 			}
 
 			newRuleEntities[k] = v
@@ -328,14 +331,19 @@ func updateIncremental(kc *base.KnowledgeContext, rb *builder.RuleBuilder) {
 			for k, v := range newSortRules {
 				indexMap[v.RuleName] = k
 			}
-			rb.Kc.SortRulesIndexMap = indexMap
+			newSortRulesIndexMap = indexMap
 
 			newRuleEntities[k] = v
 		}
 	}
 
-	rb.Kc.RuleEntities = newRuleEntities
-	rb.Kc.SortRules = newSortRules
+	//publish by swapping in a fresh container: the published one is never edited, an execution
+	//that already took it keeps seeing one complete version
+	newKc := base.NewKnowledgeContext()
+	newKc.RuleEntities = newRuleEntities
+	newKc.SortRules = newSortRules
+	newKc.SortRulesIndexMap = newSortRulesIndexMap
+	rb.Kc = newKc
 }
 
 //sync method
@@ -381,8 +389,10 @@ func (gp *GenginePool) ClearPoolRules() {
 	defer gp.updateLock.Unlock()
 	gp.ruleBuilder = nil
 	gp.clear = true
+	//install a fresh empty container instead of emptying the published one under running executions
+	emptyKc := base.NewKnowledgeContext()
 	for i := 0; i < int(gp.max); i++ {
-		gp.rbSlice[i].Kc.ClearRules()
+		gp.rbSlice[i].Kc = emptyKc
 	}
 }
 
